@@ -69,7 +69,7 @@ PROPS = {
         trusted=['T3 as for C07', 'T8 every configured mapping satisfies internal+range <= 2^32 and external+range <= 2^32 (map_ok; Vfs::new never validates it - DESIGN.md section 7, O2)'],
     ),
     'C01': dict(
-        vx_units=['server', 'fusedevw'], kx=[], rx=['server', 'readdir'],
+        vx_units=['server', 'fusedevw', 'cstrs'], kx=[], rx=['server', 'readdir'],
         design_ref='DESIGN.md section 5, C01',
         not_covered=[
             'memory safety of the unsafe blocks below the transport seam (get_message_body::set_len, Reader::read_obj, FuseDevWriter raw Vecs, virtio copy_nonoverlapping) and descriptor-chain construction',
@@ -81,7 +81,7 @@ PROPS = {
                  'T8 filesystems are arbitrary but return positive errnos and, for read, the count they appended to the writer'],
     ),
     'C02': dict(
-        vx_units=['server', 'arcfs'], kx=[], rx=['server'],
+        vx_units=['server', 'arcfs', 'cstrs'], kx=[], rx=['server'],
         design_ref='DESIGN.md section 5, C02',
         not_covered=[
             'any handler listed as body=assumed in functions_under_contract (none at the time of writing; SETXATTR is verified with Iterator::position(is NUL) replaced by a model call)',
@@ -90,7 +90,7 @@ PROPS = {
             'Arc<FS> forwarding of readdir / readdirplus (&mut dyn FnMut)',
         ],
         trusted=['T3 as C01', 'T8 F::Inode / F::Handle conversions are functions (vstd FromSpec / IntoSpec obeys_*)',
-                 'contract-only helpers: bytes_to_cstr, ServerUtil::extract_two_cstrs (iter().position), ServerUtil::get_message_body (unsafe set_len)'],
+                 'contract-only helper: ServerUtil::get_message_body (unsafe set_len); bytes_to_cstr and ServerUtil::extract_two_cstrs are verified on their real text in unit cstrs against the very contracts unit server assumes (std only is assumed there: Iterator::position(is NUL), range indexing with the in-bounds condition as an obligation, CStr::from_bytes_with_nul as documented)'],
     ),
     'C03': dict(
         vx_units=['server'], kx=[], rx=['server', 'readdir'],
